@@ -74,6 +74,7 @@ def main():
             for seed in (0,):
                 r = sh('cd %s && VERIF_SEED=%%d ./check %%s --tier quick' % VROOT % (seed, p), env=env_mut, timeout=3000)
                 lines = [l for l in r.stdout.splitlines() if l.startswith(('VIOLATION', 'KNOWN-FINDING', 'INFRA'))]
+                lines.sort(key=lambda l: not l.startswith('VIOLATION'))   # stable: VIOLATION lines first, then the rest
                 checks['%s/quick/seed%d' % (p, seed)] = dict(exit=r.returncode, lines=lines[:6],
                                                              summary=r.stdout.strip().splitlines()[-1:] )
         res['checks'] = checks
